@@ -591,11 +591,21 @@ func (s *Serializer) Deserialize(src []byte, dst *ParsedJson) (*ParsedJson, erro
 		tagDst := uint64(t) << 56
 		if nSkips > 0 && tag != TagNop {
 			// We owe skips. Add with jumps
+			if nSkips >= len(dst.Tape)-off {
+				return dst, errors.New("tags extended beyond tape")
+			}
 			for i := 0; i < nSkips; i++ {
 				dst.Tape[off] = (uint64(TagNop) << JSONTAGOFFSET) | uint64(nSkips-i)
 				off++
 			}
 			nSkips = 0
+		}
+		switch tag {
+		case TagString, TagFloat, TagInteger, TagUint, tagFloatWithFlag:
+			// These occupy two tape entries.
+			if off+1 >= len(dst.Tape) {
+				return dst, errors.New("tags extended beyond tape")
+			}
 		}
 		switch tag {
 		case TagNop:
@@ -639,7 +649,7 @@ func (s *Serializer) Deserialize(src []byte, dst *ParsedJson) (*ParsedJson, erro
 			val := binary.LittleEndian.Uint64(values[:8])
 			values = values[8:]
 			val += uint64(off)
-			if val > uint64(len(dst.Tape)) {
+			if val > uint64(len(dst.Tape)) || val < uint64(off)+2 {
 				return dst, fmt.Errorf("%v extends beyond tape (%d). offset:%d", tag, len(dst.Tape), val)
 			}
 
@@ -675,6 +685,9 @@ func (s *Serializer) Deserialize(src []byte, dst *ParsedJson) (*ParsedJson, erro
 	}
 	if nSkips > 0 {
 		// We owe skips. Add with jumps
+		if nSkips > len(dst.Tape)-off {
+			return dst, errors.New("tags extended beyond tape")
+		}
 		for i := 0; i < nSkips; i++ {
 			dst.Tape[off] = (uint64(TagNop) << JSONTAGOFFSET) | uint64(nSkips-i)
 			off++
